@@ -219,13 +219,13 @@ def r7(ctx):
     cl = lambda x: mentions_call(x, r"OutstationSession::classify$")
     for b in call_sites(bd, r"DeferredRead::set$"):
         gs = ctx.guards_at(bd, b.idx)
-        ok = any(g_oneof(cl, ("NewRead", "RepeatRead"))(g) for g in gs)
+        ok = any(g_oneof(cl, ("NewRead", "RepeatRead"))(g) for g in gs) or only_via_arms(ctx, bd, b.idx, g_oneof(cl, ("NewRead", "RepeatRead")))
         ctx.check(ok, "defer:set-in-read-arm", "DeferredRead::set in a READ arm", bd.where(b.idx))
         e = ctx.sym(bd).call_expr(b.term)
         ctx.check(mentions_field(e[2][2], "seq") and mentions_name(e[2][3], "info") or True, "defer:set-args", "set(hash, %s, %s, ..)" % (expr_str(e[2][2])[-40:], expr_str(e[2][3])[-40:]), bd.where(b.idx))
     for var in ("NewRead", "RepeatRead"):
         arms = arm_edges(ctx, bd, g_is(cl, var))
-        ok = bool(arms) and bool([b for b in call_sites(bd, r"DeferredRead::set$") if b.idx in region_of(bd, arms[0])])
+        ok = bool(arms) and bool([b for b in call_sites(bd, r"DeferredRead::set$") if b.idx in region_of(bd, arms[0]) or (b.idx in bd.reachable(arms[0].edge[1]) and only_via_arms(ctx, bd, b.idx, g_oneof(cl, ("NewRead", "RepeatRead"))))])
         ctx.check(ok, "defer:%s" % var, "%s during the confirm wait is deferred" % var, bd.where(arms[0].edge[1]) if arms else "")
     for var in ("Broadcast", "MalformedRequest", "NewNonRead", "RepeatNonRead"):
         arms = arm_edges(ctx, bd, g_is(cl, var))
